@@ -204,6 +204,9 @@ func cmdCheck(args []string) {
 	fs.Parse(args)
 	hdir := filepath.Join(verifDir, "harness")
 	work := filepath.Join(verifDir, "work")
+	if d := os.Getenv("VP_WORK_DIR"); d != "" {
+		work = d
+	}
 	t0 := time.Now()
 
 	if *replay != "" {
@@ -394,6 +397,9 @@ func cmdCheck(args []string) {
 
 	// ---- native replays ----
 	repDir := filepath.Join(verifDir, "replays")
+	if d := os.Getenv("VP_REPLAY_DIR"); d != "" {
+		repDir = d
+	}
 	tmpDir := filepath.Join(repDir, "tmp")
 	var paths []string
 	vecOf := map[string]*replayVec{}
@@ -603,9 +609,13 @@ func cmdCheck(args []string) {
 		"wall_s":      time.Since(t0).Seconds(),
 		"violations":  violations,
 	}
-	os.MkdirAll(filepath.Join(verifDir, "evidence"), 0o755)
+	evDir := filepath.Join(verifDir, "evidence")
+	if d := os.Getenv("VP_EVIDENCE_DIR"); d != "" {
+		evDir = d // sensitivity runs against other trees must not overwrite the registered evidence
+	}
+	os.MkdirAll(evDir, 0o755)
 	eb, _ := json.MarshalIndent(ev, "", " ")
-	if err := os.WriteFile(filepath.Join(verifDir, "evidence", ps.ID+".json"), eb, 0o644); err != nil {
+	if err := os.WriteFile(filepath.Join(evDir, ps.ID+".json"), eb, 0o644); err != nil {
 		fmt.Println("cannot write evidence:", err)
 		exitCode = 2
 	}
